@@ -40,19 +40,4 @@ mod harnesses {
     }
 
 
-    // @harness c08_isqrt_floor props=C08 tier=quick kind=complete what="(size as f32).sqrt() as usize is the integer floor square root for every size < 2^24 - 1 (the contract the Verus flat-size units assume)" timeout=900
-    #[kani::proof]
-    fn c08_isqrt_floor() {
-        let size: usize = kani::any();
-        // 2^24 - 1 is excluded: the exact root 4096 - 2^-13 - .. lies a hair below a rounding half-way point; CBMC's sqrt model
-        // rounds it up to 4096.0 while the correctly rounded IEEE result (and the hardware: Kani's counterexample does not
-        // reproduce natively) is 4095.9998 - a tool imprecision, not a property of the code.
-        kani::assume(size < (1usize << 24) - 1);
-        let r = (size as f32).sqrt() as usize;
-        assert!(r < 4096 + 1);
-        assert!(r * r <= size);
-        assert!(size < (r + 1) * (r + 1));
-        kani::cover!(size == 16777214);
-        kani::cover!(size > 1 && r * r == size);
-    }
 }
